@@ -135,7 +135,8 @@ def build_native(ll, wd, entry, asan=False):
     P.run(["clang-14", "-O1", "-I" + os.path.join(ROOT, "rt"), "-DVF_ENTRY=" + entry, "-c",
            os.path.join(ROOT, "rt", "vf_native.c"), "-o", obj])
     # only the chosen entry must stay external: others are harmless
-    cmd = ["clang++-14", "-O1", "-Wno-override-module", ll, obj, "-o", exe + ".tmp", "-lm", "-lpthread"]
+    cmd = ["clang++-14", "-O1", "-Wno-override-module", ll, obj, os.path.join(ROOT, "rt", "vf_native_cxx.cpp"),
+           "-o", exe + ".tmp", "-lm", "-lpthread"]
     if asan:
         cmd.insert(1, "-fsanitize=address,undefined")
     P.run(cmd)
@@ -155,7 +156,7 @@ def run_native(exe, inputs, wd, tag):
     env = dict(os.environ, VF_INPUTS=f)
     try:
         r = subprocess.run(["timeout", "20", exe], stdout=subprocess.PIPE, stderr=subprocess.PIPE, env=env, text=True,
-                           errors="replace")
+                           errors="replace", cwd=wd)
     finally:
         os.unlink(f)
     out = {"rc": r.returncode, "lines": [], "done": False, "assume_false": False, "stderr": r.stderr[-2000:]}
